@@ -142,7 +142,7 @@ def check(case, ctx):
             scp = np.max(np.abs(Gp))
             if not any(np.allclose(R @ R.T, Gp, rtol=0, atol=1e-8 * scp) or np.allclose(R.T @ R, Gp, rtol=0, atol=1e-8 * scp) for (_, _, _, R) in cp):
                 ctx.fail("wrong-vectors-uvw%d/%s" % (pre, m), "%s.reduce_cell(%r, uvw=%d) = %r is not built from the shortest non-coplanar vectors of that range" % (m, cell, pre, pre_out))
-    out = mod.reduce_cell(cell)
+    out = mod.reduce_cell(O.ro(cell) if case.get("M", 0) is not None and case.get("M", 0) % 2 else cell)
     out = [float(x) for x in out]
     if not all(math.isfinite(x) for x in out) or len(out) != 6:
         ctx.fail("non-finite/" + m, "%s.reduce_cell(%r) = %r" % (m, cell, out))
